@@ -471,6 +471,111 @@ where
 }
 
 // ---------------------------------------------------------------------------------------------
+// shared Module, free running (complement to the exhaustive parts: OS threads, no controlled scheduler)
+// ---------------------------------------------------------------------------------------------
+
+/// One job of thread `t`: a digest of values that depend only on (t, it). The jobs go through the entry points worker
+/// threads share in the library: Galois elements for thread-specific generators, the trace's element list,
+/// automorphisms and rotations on thread-private vectors, and a slice of the toy circuit on the shared prepared inputs.
+fn free_job<B: Bk>(fx: &Fixture<B>, circuit: &ToyCircuit, t: usize, it: usize) -> u64
+where
+    Module<B>: HalAll<B> + CoreAll<B> + ExecuteBDDCircuit<B>,
+    Scratch<B>: ScratchTakeCore<B> + ScratchAvailable + TakeSlice,
+{
+    use poulpy_core::GLWETrace;
+    use poulpy_hal::api::{VecZnxAutomorphism, VecZnxRotate};
+    use poulpy_hal::layouts::{GaloisElement, VecZnx, ZnxViewMut};
+    let m = &fx.module;
+    let mut h: u64 = 0xcbf2_9ce4_8422_2325 ^ ((t as u64) << 32 | it as u64);
+    let mut mix = |x: u64| {
+        h ^= x;
+        h = h.wrapping_mul(0x0000_0100_0000_01B3);
+    };
+    match (t + it) % 4 {
+        0 => {
+            for k in 0..64i64 {
+                let g = (2 * t as i64 + 1) * (k + 1) * if k % 3 == 0 { -1 } else { 1 };
+                let e = m.galois_element(g);
+                mix(e as u64);
+                mix(m.galois_element_inv(e) as u64);
+            }
+        }
+        1 => {
+            for e in m.glwe_trace_galois_elements() {
+                mix(e as u64);
+            }
+            for k in 0..16i64 {
+                mix(m.galois_element(k * (t as i64 + 1)) as u64);
+            }
+        }
+        2 => {
+            let n = m.n();
+            let mut a = VecZnx::alloc(n, 1, 2);
+            for (i, x) in a.raw_mut().iter_mut().enumerate() {
+                *x = ((i * 31 + t * 7 + it) % 97) as i64 - 48;
+            }
+            let mut r = VecZnx::alloc(n, 1, 2);
+            let p = m.galois_element(t as i64 + it as i64 % 5 + 1);
+            m.vec_znx_automorphism(p, &mut r, 0, &a, 0);
+            mix(fnv(&r.data));
+            m.vec_znx_rotate(t as i64 - it as i64, &mut r, 0, &a, 0);
+            mix(fnv(&r.data));
+        }
+        _ => mix(fnv(&shared_ops::<B>(fx, circuit, t * 2 + it % 2))),
+    }
+    h
+}
+
+pub fn exec_shared_free<B: Bk>(budget_ms: u64, rec: &mut Rec)
+where
+    Module<B>: HalAll<B>
+        + CoreAll<B>
+        + ExecuteBDDCircuit<B>
+        + FheUintPreparedFactory<u8, B>
+        + poulpy_bin_fhe::bdd_arithmetic::FheUintPreparedEncryptSk<u8, B>,
+    Scratch<B>: ScratchTakeCore<B> + ScratchAvailable + TakeSlice,
+{
+    let fx = fixture::<B>(8, 0xA7);
+    let circuit = toy_circuit(6, 8);
+    let nthreads = 8usize;
+    let iters = 32usize;
+    let solo: Vec<Vec<u64>> = (0..nthreads).map(|t| (0..iters).map(|it| free_job::<B>(&fx, &circuit, t, it)).collect()).collect();
+    let start = std::time::Instant::now();
+    let mut rounds = 0u64;
+    while start.elapsed().as_millis() < budget_ms as u128 {
+        let barrier = std::sync::Barrier::new(nthreads);
+        let bad: std::sync::Mutex<Option<(usize, usize)>> = std::sync::Mutex::new(None);
+        std::thread::scope(|s| {
+            for t in 0..nthreads {
+                let (fx, circuit, solo, barrier, bad) = (&fx, &circuit, &solo, &barrier, &bad);
+                s.spawn(move || {
+                    barrier.wait();
+                    for it in 0..iters {
+                        let got = guarded(|| free_job::<B>(fx, circuit, t, it));
+                        if got.as_ref().ok() != Some(&solo[t][it]) {
+                            let mut b = bad.lock().unwrap();
+                            if b.is_none() {
+                                *b = Some((t, it));
+                            }
+                            return;
+                        }
+                    }
+                });
+            }
+        });
+        rounds += 1;
+        rec.evals((nthreads * iters) as u64);
+        if let Some((t, it)) = *bad.lock().unwrap() {
+            rec.fail(json!({"op": "shared_module_free_running", "backend": B::NAME, "kind": "interference", "case": {"thread": t, "iteration": it, "job_kind": (t + it) % 4},
+                "inner": {"round": rounds}, "why": "a job run concurrently with 7 other threads on the shared Module gave a result different from the same job run alone"}));
+            return;
+        }
+    }
+    rec.add("free_running_rounds", rounds);
+    rec.distinct(3);
+}
+
+// ---------------------------------------------------------------------------------------------
 
 fn fam_sched<B: Bk>(run: &mut Run)
 where
@@ -617,6 +722,12 @@ pub fn run(run: &mut Run) {
                 );
             };
         }
+        let budget = run.tier.pick(1500u64, 20_000u64);
+        run.single(
+            "shared_module_free_running/fft64-ref",
+            "COMPLEMENT, not exhaustive: 8 OS threads x 32 jobs (Galois elements of thread-specific generators and their inverses, the trace's element list, automorphism / rotation of private vectors, circuit slices on shared prepared inputs) on one shared Module, released together from a barrier and repeated for a fixed time budget; every job's digest equals the digest of the same job run alone. Catches shared mutable state behind &Module that the controlled scheduler (yield points at work-item granularity) cannot interleave",
+            |rec| exec_shared_free::<pvc_common::FFT64Ref>(budget, rec),
+        );
         shared!(pvc_common::FFT64Ref);
         shared!(pvc_common::NTT120Ref);
         if pvc_common::host_has_avx() {
@@ -644,7 +755,11 @@ pub fn replay(run: &mut Run, d: &Value) {
                 let c: CountCase = serde_json::from_value(d["case"].clone()).unwrap();
                 run.single(&fam, "replay", |rec| exec_counts::<$B>(&c, 40, rec));
             } else if fam.starts_with("shared_module") {
-                run.single(&fam, "replay", |rec| exec_shared::<$B>(rec));
+                if fam.starts_with("shared_module_free_running") {
+                    run.single(&fam, "replay", |rec| exec_shared_free::<$B>(3000, rec));
+                } else {
+                    run.single(&fam, "replay", |rec| exec_shared::<$B>(rec));
+                }
             }
         }};
     }
@@ -724,6 +839,21 @@ macro_rules! prepare_subject {
                 let per = module.fhe_uint_prepare_tmp_bytes(7, 1, &ggsw_infos, &glwe_infos, &ctx.bdd_key);
                 let run_once = |threads: usize, fill: usize| -> Vec<u8> {
                     let mut res: FheUintPrepared<_, u8, B> = FheUintPrepared::alloc_from_infos(module, &ggsw_infos);
+                    // the receiver is a re-used one: every bit already holds a (bootstrapping-free) encryption of the
+                    // complement, so that a bit the routine should have rewritten or cleared and did not is visible
+                    {
+                        let enc_ggsw = EncryptionLayout::new_from_default_sigma(ggsw_infos).unwrap();
+                        let mut s0 = <B as Bk>::scratch(1 << 22);
+                        res.encrypt_sk(
+                            module,
+                            !c.value,
+                            &ctx.sk_glwe,
+                            &enc_ggsw,
+                            &mut Source::new([9u8; 32]),
+                            &mut Source::new([10u8; 32]),
+                            <B as Bk>::borrow(&mut s0),
+                        );
+                    }
                     // generous: exact multi-thread sizing is C12's business (per-thread windows are re-aligned to 64 bytes)
                     let mut s = <B as Bk>::scratch(threads * (per + 64) + 64);
                     garbage(s.data.as_mut(), fill);
@@ -815,7 +945,7 @@ prepare_subject!(prepare_fft64_avx, pvc_common::FFT64Avx);
 pub fn prep_cases(backend: &str, thorough: bool) -> Vec<PrepCase> {
     let mut v = vec![];
     let insts: &[(usize, usize, usize, usize)] =
-        if thorough { &[(2, 0, 4, 3), (3, 1, 5, 2), (2, 2, 3, 64), (3, 0, 8, 2)] } else { &[(2, 0, 4, 2), (3, 1, 5, 1)] };
+        if thorough { &[(2, 0, 4, 3), (3, 1, 5, 2), (2, 2, 3, 64), (3, 0, 8, 2), (3, 0, 4, 2), (4, 1, 5, 1), (5, 0, 7, 1)] } else { &[(2, 0, 4, 2), (3, 1, 5, 1), (3, 0, 4, 1)] };
     for &(threads, bit_start, bit_count, bound) in insts {
         v.push(PrepCase {
             subject: "fhe_uint_prepare_custom_multi_thread".into(),
